@@ -333,6 +333,14 @@ func viewAck(v *vw, p ackLike, ups mq.UserProperties) {
 
 func viewLine(p mq.ControlPacket) string { return kindOf(p) + " " + viewOf(p) }
 
+// a writer that is nothing but an io.Writer
+type plainWriter struct{ b []byte }
+
+func (w *plainWriter) Write(p []byte) (int, error) {
+	w.b = append(w.b, p...)
+	return len(p), nil
+}
+
 func trunc(s string, n int) string {
 	if len(s) > n {
 		return s[:n] + "…"
@@ -723,6 +731,20 @@ func (e *executor) exec(line string) (res string) {
 		n, err := s.p.WriteTo(&buf)
 		if s.tainted {
 			return "enc ok"
+		}
+		// the same packet into writers that offer less, or more, than *bytes.Buffer does (only Write; a bufio.Writer
+		// with its ReadFrom/WriteString/WriteByte): the frame and the count must not depend on the kind of writer
+		var plain plainWriter
+		n2, err2 := s.p.WriteTo(&plain)
+		var under bytes.Buffer
+		bw := bufio.NewWriterSize(&under, 64)
+		n3, err3 := s.p.WriteTo(bw)
+		bw.Flush()
+		if !bytes.Equal(plain.b, buf.Bytes()) || n2 != n || (err2 != nil) != (err != nil) {
+			return fmt.Sprintf("enc FAIL writer=plain wrote %s n=%d err=%v where *bytes.Buffer got %s n=%d", trunc(hxd(plain.b), 120), n2, err2 != nil, trunc(hxd(buf.Bytes()), 120), n)
+		}
+		if !bytes.Equal(under.Bytes(), buf.Bytes()) || n3 != n || (err3 != nil) != (err != nil) {
+			return fmt.Sprintf("enc FAIL writer=bufio.Writer wrote %s n=%d err=%v where *bytes.Buffer got %s n=%d", trunc(hxd(under.Bytes()), 120), n3, err3 != nil, trunc(hxd(buf.Bytes()), 120), n)
 		}
 		return fmt.Sprintf("enc %s n=%d err=%s", hxd(buf.Bytes()), n, b01(err != nil))
 	case "DEC":
